@@ -13,10 +13,12 @@ namespace XmppModel.Bind
 
 /-- the resourcepart of a canonical address string: what follows the first `/`
 (localparts and domainparts cannot contain one) -/
-def resourcepart (j : String) : String :=
-  match j.splitOn "/" with
-  | _ :: r :: rs => "/".intercalate (r :: rs)
-  | _ => ""
+def resourcepartL (j : List Char) : List Char :=
+  match j.dropWhile (· ≠ '/') with
+  | [] => []
+  | _ :: r => r
+
+def resourcepart (j : String) : String := String.ofList (resourcepartL j.toList)
 
 /-! ## initiating side -/
 
